@@ -269,21 +269,22 @@ def extract(src, problems):
     attempt('view type tuples', f_types)
 
     def f_rm():
+        # RequestMethodPredicate.__init__ is TRANSLATED (gen_mk_request_method, theorem gen_factory_is_model): a shape this
+        # reader does not know is no alarm by itself.  What it does read must be the documented pair: "GET implies HEAD"
+        # is the property's condition, not a parameter the specification may follow the code on.
         init = mq.find('RequestMethodPredicate.__init__')
-        tests = [n for n in ast.walk(init) if isinstance(n, ast.If)]
+        tests = [n for n in ast.walk(init) if isinstance(n, ast.If)] if init is not None else []
         if len(tests) != 1:
-            raise Unk('one if')
+            return
         t = tests[0].test
         if not (isinstance(t, ast.BoolOp) and isinstance(t.op, ast.And) and len(t.values) == 2
                 and isinstance(t.values[0], ast.Compare) and isinstance(t.values[0].ops[0], ast.In)
-                and isinstance(t.values[1], ast.Compare) and isinstance(t.values[1].ops[0], ast.NotIn)):
-            raise Unk('test shape')
-        v['rm_get'] = t.values[0].left.value
-        v['rm_head'] = t.values[1].left.value
-        added = [n for n in ast.walk(tests[0]) if isinstance(n, ast.Tuple) and len(n.elts) == 1
-                 and isinstance(n.elts[0], ast.Constant)]
-        if len(added) != 1 or added[0].elts[0].value != v['rm_head']:
-            raise Unk('the method appended differs from the one tested')
+                and isinstance(t.values[1], ast.Compare) and isinstance(t.values[1].ops[0], ast.NotIn)
+                and isinstance(t.values[0].left, ast.Constant) and isinstance(t.values[1].left, ast.Constant)):
+            return
+        got = (t.values[0].left.value, t.values[1].left.value)
+        if got != (DEFAULTS['rm_get'], DEFAULTS['rm_head']):
+            raise Unk('the request methods tested are %r, the documented rule is GET implies HEAD' % (got,))
     attempt('GET implies HEAD', f_rm)
 
     def f_pfx():
@@ -291,16 +292,30 @@ def extract(src, problems):
             node = mq.find(cls)
             if node is None:
                 raise Unk(cls + ' missing')
-            p, s = _text_consts(node, meth)
+            # text() / phash() are TRANSLATED (harness/c03/translate.py, theorem gen_pred_phash_is_model): the literals read
+            # here only let the reference model follow a changed prefix / separator; a shape this reader does not know
+            # keeps the reference literal and is no alarm by itself -- the equality theorem is the tie
+            try:
+                p, s = _text_consts(node, meth)
+            except Unk:
+                continue
             if needsep and s is None:
-                raise Unk(cls + ': separator')
+                continue
             v['pfx'][stem] = (p, s)
         nt = mq.find('Notted._notted_text')
         lits = [n.value for n in ast.walk(nt) if isinstance(n, ast.Constant) and isinstance(n.value, str)
-                and len(n.value) <= 3]
-        if len(lits) != 1:
-            raise Unk('Notted mark')
-        v['not_mark'] = lits[0]
+                and len(n.value) <= 3] if nt is not None else []
+        if len(lits) == 1:
+            v['not_mark'] = lits[0]
+        # the declarative specification identifies a registration by these texts ("same slot and same predicates"): it may
+        # follow the code's literals only as long as they keep different predicates apart.  Otherwise the reference literals
+        # stay (and the equality theorems / the correspondence report the difference)
+        pf = [p for p, _ in v['pfx'].values()]
+        if v['not_mark'] == '' or any(not a or (a != b and b.startswith(a)) for a in pf for b in pf) or len(set(pf)) != len(pf) \
+                or any(a.startswith(v['not_mark']) for a in pf):
+            v['pfx'] = {k: tuple(x) for k, x in DEFAULTS['pfx'].items()}
+            v['not_mark'] = DEFAULTS['not_mark']
+            raise Unk('the prefixes / the not_ mark read from the source no longer keep the texts of different predicates apart')
     attempt('predicate text literals', f_pfx)
     return v
 
